@@ -176,9 +176,19 @@ def rec_g2(g, qs, tau, seed, jitter, cells=None):
         m[int(rng.integers(0, h)), int(rng.integers(0, w))] = False
     mask = aa.Mask2D(mask=m, pixel_scales=ps, origin=org)
     rec["u"] = [int(k) for k in np.flatnonzero(~m.ravel())]
-    rec["grid_mask"] = al.ticks(_slim(aa.Grid2D.from_mask(mask=mask).slim, 2), "grid_mask")
-    rec["grid_uniform"] = al.ticks(_slim(aa.Grid2D.uniform(shape_native=(h, w), pixel_scales=ps, origin=org).slim, 2), "grid_uniform")
-    rec["grid_all_false"] = al.ticks(_slim(mask.derive_grid.all_false.slim, 2), "grid_all_false")
+    # every grid is requested twice and the first result (the caller's own object) is edited in place before the second
+    # request: the judged grid must still be the closed-form one (no result may be handed out from a shared buffer)
+    def _twice(make):
+        first = make()
+        try:
+            first._array[...] = 12345.678
+        except Exception:
+            pass
+        return make()
+
+    rec["grid_mask"] = al.ticks(_slim(_twice(lambda: aa.Grid2D.from_mask(mask=mask)).slim, 2), "grid_mask")
+    rec["grid_uniform"] = al.ticks(_slim(_twice(lambda: aa.Grid2D.uniform(shape_native=(h, w), pixel_scales=ps, origin=org)).slim, 2), "grid_uniform")
+    rec["grid_all_false"] = al.ticks(_slim(_twice(lambda: mask.derive_grid.all_false).slim, 2), "grid_all_false")
 
     # continuous pixel coordinates -> scaled -> continuous pixel coordinates: quarters of a pixel in [0.25, H-0.75] x
     # [0.25, W-0.75], which is inside the frame whether pixel centres sit at half-integers or at integers
